@@ -21,3 +21,14 @@ add("C02", "exploration",
     "All matrices over {0,+-1,+-2} (n<=2), {0,+-1} (n=3; n=4 and 5-letter n=3 thorough), all signed permutation matrices n<=6, transposition products with sign flips for n=7,8, triangular and rank-deficient families up to n=8: determinant() must equal the exact determinant (0 on singular input, correct sign), A*inv=inv*A=I exactly, operand equal to its pre-call clone; f64/Complex<f64> twins within 1e-12 (Hadamard-scaled) / 1e-10.",
     "Trusted: independent cofactor (n<=5) and fraction-free Bareiss (n>5) determinants; orders 5..8 only through structured families.",
     "DESIGN.md section 6 C02")
+
+add("C04", "model_checking",
+    "exhaustive enumeration of band fillings for every (n,m1,m2) + explicit-state BFS over mutation histories of real Banded<Rat> objects, dense twin as reference model",
+    "Every size/bandwidth triple up to n=4 (quick) / 5 (thorough) with every filling of the band over small signed alphabets, Toeplitz and deviation-bounded families up to n=10, each under several padding values (0, 7, NaN): index, product, det and solve are compared with the dense twin exactly over rationals; f64/Complex<f64> twins with 1e-20 letters by backward error and bit-identity across paddings. BFS over set/fill/arithmetic histories with the complete compact storage (padding included) as state.",
+    "Trusted: dense reference (cofactor determinant, exact rationals). f64 lattices restricted to well-conditioned members. n>5 through structured families only.",
+    "DESIGN.md section 6 C04")
+add("C05", "model_checking",
+    "exhaustive enumeration of all three diagonals for n<=5 against the dense twin and exact pivot-free elimination + explicit-state BFS over mutation histories",
+    "All tridiagonal matrices over 5 letters for n<=3 (n=4 over 4/5 letters, n=5 over 3 letters; deeper in thorough), Toeplitz families n=6..12 with the pivot of each step forced to zero: convert/transpose/index/det/product must equal the dense twin and solve must return the exact solution iff exact Thomas elimination meets no zero pivot, else panic with the zero-pivot message. BFS over index writes, transposes, arithmetic and resizes for orders 1..3.",
+    "Trusted: dense reference and an independent exact Thomas recurrence that decides which outcome is required. f64 stability only checked on strictly diagonally dominant families.",
+    "DESIGN.md section 6 C05")
